@@ -166,7 +166,7 @@ def positive_random(draw):
 
 @st.composite
 def negative_cases(draw):
-    kind = draw(st.sampled_from(["raw", "mut-b58", "mut-segwit", "unknown-b58-version", "pk-wrong-len-for-prefix", "pk-off-curve", "pk-x>=p", "pk-hybrid", "pk-bad-prefix", "b58-no-checksum", "segwit-wrong-hrp", "segwit-bad-proglen", "segwit-bad-proglen", "segwit-wrong-const", "segwit-bad-version", "segwit-nonzero-pad"]))
+    kind = draw(st.sampled_from(["raw", "mut-b58", "mut-segwit", "unknown-b58-version", "pk-wrong-len-for-prefix", "pk-off-curve", "pk-x>=p", "pk-hybrid", "pk-bad-prefix", "b58-no-checksum", "segwit-wrong-hrp", "segwit-bad-proglen", "segwit-bad-proglen", "segwit-wrong-const", "segwit-bad-version", "segwit-nonzero-pad", "pk-coord-aliased"]))
     if kind == "raw":
         return {"kind": kind, "data": draw(st.binary(max_size=100)).hex()}
     if kind in ("mut-b58", "unknown-b58-version", "b58-no-checksum"):
@@ -191,6 +191,23 @@ def negative_cases(draw):
         s = rbech.encode_addr(draw(st.sampled_from(["bc", "tb", "bcrt"])), v, prog)
         s, _ = draw(gen.edit_mutation(s, rbech.CHARSET.encode(), b"1bio B", max_edits=2))
         return {"kind": kind, "data": s.hex()}
+    if kind == "pk-coord-aliased":
+        # 04 || (c+p) || y (or x || (c+p)) where the reduced coordinates ARE a curve point: only an explicit "< p" test refuses it
+        c = draw(st.integers(0, 2**32 + 700))
+        which = draw(st.sampled_from(["x", "y"]))
+        for _ in range(200):
+            if which == "x":
+                y = ec.sqrt_mod((c * c * c + 7) % P)
+                if y is not None:
+                    y = draw(st.sampled_from([y, P - y]))
+                    return {"kind": kind, "data": (b"\x04" + (c + P).to_bytes(32, "big") + y.to_bytes(32, "big")).hex()}
+            else:
+                a = (c * c - 7) % P
+                x = pow(a, (P + 2) // 9, P)
+                if pow(x, 3, P) == a:
+                    return {"kind": kind, "data": (b"\x04" + x.to_bytes(32, "big") + (c + P).to_bytes(32, "big")).hex()}
+            c += 1
+        return {"kind": "raw", "data": ""}
     if kind.startswith("segwit-"):
         # valid characters, known HRP and a CORRECT checksum, but a BIP141/173/350 rule broken
         hrp = draw(st.sampled_from(["bc", "tb", "bcrt"]))
@@ -261,7 +278,7 @@ def _targets(tier):
         Target("keys", check_key, strategy=lambda tier: st.fixed_dictionaries({"k": gen.scalars_valid()}), budget={"quick": 400, "thorough": 8000}),
         Target("negative", check_negative, strategy=lambda tier: negative_cases(), budget={"quick": 5000, "thorough": 100000},
                required=["nt:pk-wrong-len-for-prefix", "nt:unknown-b58-version", "nt:mut-segwit", "nt:mut-b58", "nt:pk-hybrid", "expect-refuse",
-                         "nt:segwit-bad-proglen", "nt:segwit-wrong-const", "nt:segwit-bad-version", "nt:segwit-nonzero-pad"]),
+                         "nt:segwit-bad-proglen", "nt:segwit-wrong-const", "nt:segwit-bad-version", "nt:segwit-nonzero-pad", "nt:pk-coord-aliased"]),
     ]
 
 
